@@ -9,11 +9,20 @@ sumrule        unpolarised space-like A^(1..3): momentum (g and q columns incl. 
 rg-derivative  order by order, dA_k/dL (five-point stencil, exact for the polynomial L-dependence) against
                the combination of anomalous dimensions, beta coefficients and decoupling constants that
                renormalisation-group invariance of f^(nf+1) = A f^(nf) requires (vf/ref/c25_rgseam.py);
-               kinds us (k<=3), ps (k<=2), ut (k=1) x nf 3-5 x 7 N x 7 L.
+               kinds us (k<=3), ps (k<=2), ut (k=1) x nf 3-5 x 7 N x 7 L.  Three oracles per entry: relative to
+               max(own terms, fraction of the largest entry) [the original one], relative to the entry's own terms
+               (per-entry tolerances at third order), and L-independence of the residual (the parametrised
+               constants enter only its L^0 part, so the L^2, L^3 terms are decided far below their accuracy).
 rg-exponent    the matched operator E^(nf+1) R A(ln k) E^(nf) from the real kernels, the real Couplings
                (threshold ratio k) and the real build_ome (forward, exact and expanded inverse): its
                dependence on k must vanish like a_s^n; scaling-exponent oracle of DESIGN 2.3.
 build-ome      expanded / exact inverse of build_ome against the forward matrix.
+
+Recorded defect (known_findings.jsonl: rg-derivative/ps/A2/entry=Hg and rg-exponent/ps/n=3/forward/class=light):
+the single-log coefficient of the polarised A_Hg^(2) is twice the RG value.  It is pinned to its model: the listed
+signatures are emitted only where the residual of the identity equals -gamma_qg^(1),pol(N, nf=1) (independent of L
+and nf, 1e-11) resp. where the exponent is n-1 AND the same evaluation with that one term corrected reaches n
+(.../class=light/known-removed).  Any other failure of these entries carries /beyond-known and is a violation.
 
 What is *not* demanded (documented gaps of the implementation, reported as info only): the intrinsic
 heavy-quark input column beyond A^(1) (doc/source/theory/Matching.rst: 'A_qH^(2), A_gH^(2), A_HH^(2)
@@ -43,14 +52,18 @@ LEVEL_TEXT = (
     "-3..3 x orders 1-3 (N -> 2 and N -> 1 also from the complex plane); the L-dependence of every "
     "implemented light-flavour element (unpolarised to third, polarised to second, time-like to first "
     "order) is compared with the derivative that renormalisation-group invariance dictates, given eko's "
-    "own anomalous dimensions and decoupling constants; and the matched operator built from the real "
+    "own anomalous dimensions and decoupling constants (every entry relative to its own terms; the powers "
+    "of L beyond the single logarithm separately through the L-independence of the residual); and the matched operator built from the real "
     "kernels, couplings and build_ome is shown to depend on the matching scale only at the next order "
     "(local exponent of the residual under a_s -> lambda a_s, lambda down to 2^-9..2^-11)"
 )
 LEVEL_NOTE = (
     "trusted: the derivation of the RG identity in vf/ref/c25_rgseam.py (validated on the unchanged tree: "
     "the unpolarised elements satisfy it to 5e-14 at first and second order and to 9e-5 at third order), the flavour rotation of "
-    "Matching.rst, expanded-coupling solutions; decided on the lattices only"
+    "Matching.rst, expanded-coupling solutions; decided on the lattices only; at third order the single-log "
+    "coefficients are decided to the accuracy of the parametrised gamma^(2) only (1e-4 .. 4e-3 of the entry's terms, "
+    "Hq worst), the L^2, L^3 coefficients to 1e-12 (gq, qg, Hq) .. 2e-6 (gg, Hg); the recorded defect of the "
+    "polarised A_Hg^(2) is pinned to its model and removed on the fly for a second evaluation of the scaling oracle"
 )
 FLOOR_NONTRIVIAL = 40
 
@@ -61,12 +74,41 @@ NREF = (2.0, 3.0, 5.0, 8.0)
 # relative tolerances per order of the matching element (1,2,3)
 # order 1: closed forms;  order 2: exact expressions with parametrised special functions (tests: rtol 4e-5);
 # order 3: 'some parts ... have been parameterized' (tests: aHg_param rtol 7e-4; a_qqNS atol 6e-5).
-TOL_SUM = {1: 1e-11, 2: 2e-6, 3: 1e-5}  # measured 4e-14 (exact N) / 5.6e-8 / 2.0e-7
-TOL_RG = {1: 1e-10, 2: 3e-6, 3: 1e-3}  # measured 4.6e-14 / 7.8e-15 / 6e-5
+TOL_SUM = {1: 1e-11, 2: 1e-6, 3: 3e-6}  # measured 4e-14 (exact N) / 5.6e-8 / 2.0e-7  (were 2e-6 / 1e-5)
+TOL_RG = {1: 1e-10, 2: 1e-10, 3: 1e-3}  # measured 4.6e-14 / 8.1e-15 / 8.5e-5 (order 2 was 3e-6: every term is a closed form)
 # an entry is compared relative to the sum of the moduli of the terms of the identity for that entry, but not
 # less than this fraction of the largest such sum in the matrix (errors of large entries propagate through the
 # matrix products; at third order the parametrised gamma^(2) are only accurate relative to their own size)
 RG_FLOOR = {1: 1e-3, 2: 1e-3, 3: 0.1}
+# second oracle on the same identity: every entry relative to the sum of the moduli of ITS OWN terms (no matrix floor).
+# order 3: >= 10 x the measured maximum over the lattice (gg 1.1e-5, qg 7.1e-6, Hg 4.2e-5, gq 1.1e-4, qq 1.4e-5,
+# Hq 3.6e-4, ns- 9.4e-6: accuracy of the parametrised gamma^(2) against the closed single-log terms of A^(3));
+# orders 1, 2: closed forms, measured 4.6e-13 / 6.9e-13 (floor 1e-4 of the largest entry instead of 1e-3)
+TOL_RG_OWN = {
+    1: {None: 1e-10},
+    2: {None: 1e-10},
+    3: {"gg": 1.2e-4, "qg": 1e-4, "Hg": 5e-4, "gq": 1.2e-3, "qq": 1.5e-4, "Hq": 4e-3, "ns-": 1e-4},
+}
+# third oracle: the residual rho_k(L) = dA_k/dL - required(L) must not depend on L (it is the L^0 mismatch only);
+# decides the L^2, L^3 coefficients separately from the single-log one.  relative to the entry's own sum of |terms|.
+# measured: orders 1, 2 <= 1.7e-15; order 3: gq, qg, Hq <= 4.1e-16, gg 1.14e-7, Hg 1.35e-7, qq 1.7e-8, ns- 1.9e-8
+# (there the parametrised constant of A^(2) multiplies beta0 / gamma^(0) in the required L^1 term)
+TOL_LDEP = {
+    1: {None: 1e-12},
+    2: {None: 1e-12},
+    3: {"gg": 2e-6, "Hg": 2e-6, "qq": 3e-7, "ns-": 3e-7, "gq": 1e-12, "qg": 1e-12, "Hq": 1e-12},
+}
+# model of the recorded defect `rg-derivative/ps/A2/entry=Hg`: the residual equals -gamma_qg^(1),pol(N, nf=1),
+# independent of L and nf (the single-log coefficient of the polarised A_Hg^(2) is twice the RG value); measured 1.6e-15
+TOL_KNOWN_MODEL = 1e-11
+# floor of an entry's own scale, as a fraction of the largest entry's sum of |terms|: structural zeros carry the
+# rounding (1e-16 x largest) of the flavour embedding; smallest genuine entry at order 3: 2e-4 of the largest
+OWN_FLOOR = {1: 1e-4, 2: 1e-4, 3: 1e-6}
+
+
+def _tol(table, order, name):
+    t = table[order]
+    return t[name] if name in t else t[None]
 
 
 def _N(n):
@@ -176,6 +218,7 @@ def _rg_derivative(case):
     res = Result()
     mx = {}
     nchecks = 0
+    nknown = 0
     obs = {}
     order = (upto, 0)
     mo = (upto, 0)
@@ -186,6 +229,8 @@ def _rg_derivative(case):
         gMp = rs.gammas(kind, order, N, nf + 1, 10201)[1]
         gV = rs.gammas(kind, order, N, nf, 10200)[1]
         gVp = rs.gammas(kind, order, N, nf + 1, 10200)[1]
+        # residual that the recorded defect of the polarised A_Hg^(2) produces (see TOL_KNOWN_MODEL)
+        known_hg = -rs.gammas("ps", (2, 0), N, 1)[0][1][0, 1] if kind == "ps" and upto >= 2 else None
     except Exception as e:  # noqa
         res.fail(f"rg-derivative/{kind}/gamma-raises", f"nf={nf} N={N}: {type(e).__name__}: {e}")
         return res
@@ -193,6 +238,12 @@ def _rg_derivative(case):
     gp = [rs.embed_high(gSp[i], gPp[i], nf) for i in range(upto)]
     one = lambda x: np.array([[x]], dtype=complex)
     As = lambda L: rs.omes(kind, mo, N, nf, L, msbar)
+    rho = {}  # (order, entry name) -> {L: (residual, own magnitude)}   (demanded entries only)
+    known_pts = set()  # (order, entry name, L) where the failure is exactly the recorded defect
+
+    def bump(key, v):
+        mx[key] = max(mx.get(key, 0.0), v)
+
     for L in LS:
         try:
             AS, ANS = As(L)
@@ -215,17 +266,48 @@ def _rg_derivative(case):
                     if not demanded:
                         obs[f"obs_rel_intrinsic_order{k+1}"] = max(obs.get(f"obs_rel_intrinsic_order{k+1}", 0.0), rel)
                         continue
+                    name = ENTRY[i] + ENTRY[j]
+                    sig = f"rg-derivative/{kind}/A{k+1}/entry={name}"
                     nchecks += 1
                     key = f"max_rel_rg_order{k+1}"
-                    mx[key] = max(mx.get(key, 0.0), rel)
+                    own = max(mag[i, j], OWN_FLOOR[k + 1] * mag.max())  # structural zeros carry rounding of the embedding only
+                    rho.setdefault((k + 1, name), {})[L] = (dS[k][i, j] - r[i, j], own)
+                    rel_own = diff / own if own > 0 else (0.0 if diff == 0 else math.inf)
+                    tol_own = _tol(TOL_RG_OWN, k + 1, name)
+                    failed = not rel <= TOL_RG[k + 1]
+                    failed_own = not rel_own <= tol_own
+                    if (failed or failed_own) and known_hg is not None and (k, i, j) == (1, 2, 0):
+                        # recorded defect: keep the listed signature only where the residual IS the model
+                        dm = abs(dS[k][i, j] - r[i, j] - known_hg) / own
+                        if dm <= TOL_KNOWN_MODEL:
+                            nknown += 1
+                            known_pts.add((k + 1, name, L))
+                            bump("max_rel_known_defect_from_its_model", dm)
+                            res.fail(
+                                sig,
+                                f"nf={nf} N={N} L={L} msbar={msbar}: dA^({k+1})_{name}/dL = {dS[k][i,j]:.10g} but "
+                                f"renormalisation-group invariance requires {r[i,j]:.10g} (difference {dS[k][i,j]-r[i,j]:.6g} = "
+                                f"-gamma_qg^(1),pol(N, nf=1) = {known_hg:.6g}: the recorded defect)",
+                            )
+                            continue
+                        sig += "/beyond-known"
+                    bump(key, rel)
+                    bump(f"max_rel_own_terms_rg_order{k+1}", rel_own)
                     if rel <= TOL_RG[k + 1]:
-                        mx[key + "_of_passing_entries"] = max(mx.get(key + "_of_passing_entries", 0.0), rel)
-                    if not rel <= TOL_RG[k + 1]:
+                        bump(key + "_of_passing_entries", rel)
+                    if failed:
                         res.fail(
-                            f"rg-derivative/{kind}/A{k+1}/entry={ENTRY[i]}{ENTRY[j]}",
+                            sig,
                             f"nf={nf} N={N} L={L} msbar={msbar}: dA^({k+1})_{ENTRY[i]}{ENTRY[j]}/dL = {dS[k][i,j]:.10g} but "
                             f"renormalisation-group invariance requires {r[i,j]:.10g} (difference {dS[k][i,j]-r[i,j]:.6g}, "
                             f"sum of |terms| {mag[i,j]:.4g}, relative {rel:.3e} > {TOL_RG[k+1]:g})",
+                        )
+                    elif failed_own:
+                        res.fail(
+                            sig,
+                            f"nf={nf} N={N} L={L} msbar={msbar}: dA^({k+1})_{name}/dL = {dS[k][i,j]:.10g} but "
+                            f"renormalisation-group invariance requires {r[i,j]:.10g} (difference {dS[k][i,j]-r[i,j]:.6g}, "
+                            f"sum of |terms| of this entry {own:.4g}, relative {rel_own:.3e} > {tol_own:g})",
                         )
         # non-singlet light element: scalar version of the same identity, against ns-
         reqm = rs.rg_required_derivatives(
@@ -241,11 +323,14 @@ def _rg_derivative(case):
             nchecks += 1
             key = f"max_rel_rg_order{k+1}"
             mx[key] = max(mx.get(key, 0.0), rel)
-            if not rel <= TOL_RG[k + 1]:
+            rho.setdefault((k + 1, "ns-"), {})[L] = (dNS[k][0, 0] - r[0, 0], sc)
+            tol_own = _tol(TOL_RG_OWN, k + 1, "ns-")
+            bump(f"max_rel_own_terms_rg_order{k+1}", rel)
+            if not rel <= min(TOL_RG[k + 1], tol_own):
                 res.fail(
                     f"rg-derivative/{kind}/A{k+1}/entry=ns-",
                     f"nf={nf} N={N} L={L}: dA_ns^({k+1})/dL = {dNS[k][0,0]:.10g}, required {r[0,0]:.10g} "
-                    f"(relative {rel:.3e} > {TOL_RG[k+1]:g})",
+                    f"(relative {rel:.3e} > {min(TOL_RG[k+1], tol_own):g})",
                 )
             rv = reqv[k][0]
             obs[f"obs_rel_valence_with_ns-_element_order{k+1}"] = max(
@@ -262,9 +347,31 @@ def _rg_derivative(case):
                     "rg-derivative/us/A1/entry=ns-HH",
                     f"nf={nf} N={N} L={L}: dA_HH^(1)/dL = {dNS[0][1,1]} required {r}",
                 )
+    # ---- L-independence of the residual (decides the higher powers of L on their own, far below the accuracy of
+    #      the parametrised constants, which enter the residual only through its L^0 part)
+    for (k1, name), by_l in sorted(rho.items()):
+        if 0.0 not in by_l:
+            continue
+        v0, m0 = by_l[0.0]
+        tol = _tol(TOL_LDEP, k1, name)
+        for L, (v, m) in sorted(by_l.items()):
+            if L == 0.0:
+                continue
+            nchecks += 1
+            sc = max(m, m0)
+            rel = abs(v - v0) / sc if sc > 0 else (0.0 if v == v0 else math.inf)
+            bump(f"max_rel_L_dependence_of_residual_order{k1}", rel)
+            if not rel <= tol:
+                res.fail(
+                    f"rg-derivative/{kind}/A{k1}/entry={name}/L-dependence",
+                    f"nf={nf} N={N} msbar={msbar}: residual dA^({k1})_{name}/dL - required = {v:.10g} at L={L} but {v0:.10g} at L=0 "
+                    f"(difference relative to the sum of |terms| {rel:.3e} > {tol:g}): the L^2 / L^3 terms of the element "
+                    f"are not the ones renormalisation-group invariance requires",
+                )
     res.info = dict(mx)
     res.info.update(obs)
     res.info["identities"] = nchecks
+    res.info["known_defect_points"] = nknown
     res.nontrivial = nchecks > 0
     res.outcome = f"rg-derivative:{kind}:" + ("fail" if res.fails else "ok")
     return res
@@ -294,19 +401,30 @@ def _demanded(kind, n, direction):
     raise ValueError(kind)
 
 
+KNOWN_REMOVED = "light/known-removed"
+
+
 def _rg_exponent(case):
     kind, n, nf = case["kind"], case["n"], case["nf"]
     direction, scheme, method = case["direction"], case["scheme"], case["method"]
     ks = KS_THOROUGH if case.get("wide") else KS
+    i_min, i_stop, i_max = case.get("ladder", (I_MIN, I_STOP, I_MAX))
     fh = nf + 1 <= 5
     res = Result()
     Ns = EXP_N[n >= 4]
+    # recorded defect `rg-exponent/ps/n=3/forward/class=light` (polarised A_Hg^(2) single log): the light class is
+    # evaluated a second time with that one term corrected (rs.seam(remove_known_ps_hg=True)) and must then reach
+    # the full exponent; the uncorrected failure keeps the listed signature only if it is the recorded one
+    # (exponent 2 = n-1, settled) and the corrected evaluation passes
+    pin = kind == "ps" and n == 3 and direction == "forward"
     R = {"light": [], "intrinsic": [], "ns": [], "ns-other": []}
+    if pin:
+        R[KNOWN_REMOVED] = []
     lams = []
     rot = rs.rot(nf)
     conv = {}
     worst = {}
-    for i in range(I_MIN, I_MAX + 1):
+    for i in range(i_min, i_max + 1):
         lam = 2.0**-i
         lams.append(lam)
         cur = {c: 0.0 for c in R}
@@ -332,6 +450,11 @@ def _rg_exponent(case):
                         "ns": max(abs(ns[m] - ns1[m]) for m in ((10201,) if n >= 4 else (10101, 10201, 10200))),
                         "ns-other": max(abs(ns[m] - ns1[m]) for m in (10101, 10200)),
                     }
+                    if pin:
+                        # at k=1 (L=0) the correction vanishes: S1 is the reference of both evaluations
+                        Sf, _ = rs.seam(kind, n, nf, k, lam, N, direction, scheme, method, fhmruvv=fh, remove_known_ps_hg=True)
+                        df = np.abs(Sf - S1)
+                        vals[KNOWN_REMOVED] = df[:, :2].max() if np.all(np.isfinite(df)) else math.inf
                     for c, v in vals.items():
                         if v > cur[c]:
                             cur[c] = v
@@ -347,7 +470,7 @@ def _rg_exponent(case):
         for c in R:
             R[c].append(cur[c])
             worst[c] = arg.get(c)
-        if i >= I_STOP:
+        if i >= i_stop:
             done = True
             for c in R:
                 e = rs.local_exponents(R[c], lams)
@@ -358,40 +481,63 @@ def _rg_exponent(case):
             if done:
                 break
     dem = _demanded(kind, n, direction)
+    if pin:
+        dem[KNOWN_REMOVED] = dem["light"]
     info = {"ladder_last": -math.log2(lams[-1])}
     decided = 0
     margins = []
+    verdict = {}  # class -> (kind of failure | None, emin, exponents)
     for c in R:
         e = rs.local_exponents(R[c], lams)
         last = [x for x in e[-2:] if x is not None]
         emin = min(last) if last else None
-        info[f"exponent_{c}"] = None if emin is None else round(emin, 3)
+        info[f"exponent_{c.replace('/', '_')}"] = None if emin is None else round(emin, 3)
         if c == "ns-other" or not dem.get(c, False):
             continue
+        decided += 1
         if emin is None:
             # residual below the floor: the dependence vanishes identically (pair skipped)
-            decided += 1
-            continue
-        decided += 1
-        margins.append(n - emin)
-        if not conv.get(c):
+            verdict[c] = (None, None, e)
+        elif not conv.get(c):
+            verdict[c] = ("not-asymptotic", emin, e)
+        elif emin < n - 0.25:
+            verdict[c] = ("low", emin, e)
+        else:
+            verdict[c] = (None, emin, e)
+    nknown = 0
+    for c, (bad, emin, e) in verdict.items():
+        sig = f"rg-exponent/{kind}/n={n}/{direction}/class={c}"
+        is_known = False
+        if pin and c == "light" and bad == "low":
+            removed_ok = KNOWN_REMOVED in verdict and verdict[KNOWN_REMOVED][0] is None
+            if removed_ok and abs(emin - (n - 1)) <= 0.25:
+                is_known = True
+                nknown += 1
+            else:
+                sig += "/beyond-known"
+        if emin is not None and not is_known:
+            margins.append(n - emin)
+        if bad == "not-asymptotic":
             res.fail(
-                f"rg-exponent/{kind}/n={n}/{direction}/class={c}/not-asymptotic",
+                sig + "/not-asymptotic",
                 f"nf={nf} scheme={scheme} method={method}: local exponents {e} do not settle (residuals {R[c]})",
             )
-        elif emin < n - 0.25:
+        elif bad == "low":
             res.fail(
-                f"rg-exponent/{kind}/n={n}/{direction}/class={c}",
+                sig,
                 f"nf={nf} scheme={scheme} method={method}: the dependence of the matched operator on the "
                 f"matching-scale ratio vanishes only like a_s^{emin:.2f} (required >= {n}); local exponents "
                 f"{[None if x is None else round(x, 2) for x in e]}, residuals {['%.2e' % x for x in R[c]]}, "
-                f"largest at (N, k)={worst[c]}",
+                f"largest at (N, k)={worst[c]}"
+                + ("; with the single-log term of A_Hg^(2) corrected the exponent is "
+                   f"{verdict[KNOWN_REMOVED][1] if KNOWN_REMOVED in verdict else None}" if pin and c == "light" else ""),
             )
     if margins:
         info["max_exponent_deficit"] = max(margins)
         ok = [m for m in margins if m <= 0.25]
         if ok:
             info["max_exponent_deficit_of_passing_classes"] = max(ok)
+    info["known_defect_classes"] = nknown
     res.info = info
     res.nontrivial = decided > 0 and max(R["light"][0], R["ns"][0]) > FLOOR
     res.outcome = f"rg-exponent:{kind}:n={n}:" + ("fail" if res.fails else ("ok" if decided else "info-only"))
@@ -505,10 +651,12 @@ def run(ctx):
         "sumrule: nf 3-5 x L -3..3 x {pole, MSbar} x orders 1-3 x {g, q} columns + non-singlet, each at the "
         "exact moment and as three-direction means at |dN| 1e-3 and 1e-5; rg-derivative: {us k<=3, ps k<=2, "
         "ut k=1} x nf 3-5 x 7 N (4 real, 3 complex) x 7 L x all entries of the 3x3 singlet element (light "
-        "columns; the intrinsic column where implemented) + ns- element (+ MSbar for us k<=2); rg-exponent: "
+        "columns; the intrinsic column where implemented) + ns- element (+ MSbar for us k<=2), per entry and L the "
+        "identity relative to the matrix-floored and to the entry's own scale, per entry and L != 0 the L-independence of the residual; rg-exponent: "
         "{us n<=4, ps n<=3, ut n<=3} x nf 3-5 x {forward, exact inverse, expanded inverse}, residual = max over "
         "4 N x 4 ratios k (thorough: 6 ratios incl. e^-3, e^3, four more evolution methods and MSbar) x entries "
-        "of the class, lambda = 2^-4..2^-9 (extended to 2^-11 until two consecutive exponents agree to 0.1); "
+        "of the class, lambda = 2^-4..2^-9 (extended to 2^-11 until two consecutive exponents agree to 0.1), polarised n=3 forward: "
+        "light class also with the recorded A_Hg^(2) single-log defect corrected; "
         "build-ome: 3 kinds x matching order 1-3 x nf {3,5} x 2 N x 3 L.  non-trivial = at least one demanded "
         "oracle was evaluated on a non-vanishing residual"
     )
@@ -517,4 +665,8 @@ def run(ctx):
         "exponent oracle: a_s(ref)=0.35*lambda at Q0^2=1.5 (forward) or Q1^2=1e4 (backward), m_h^2=100, expanded coupling solution, threshold n-0.25 on the last two local exponents, residuals < 1e-13 skipped",
         "decoupling constants are taken from eko.couplings.compute_matching_coeffs_up (the 'given' relation of the statement)",
         f"relative tolerances sum rules {TOL_SUM}, RG identity {TOL_RG} (order 3: documented accuracy of the parametrised parts)",
+        f"RG identity relative to the entry's own terms {TOL_RG_OWN} (floor {OWN_FLOOR} of the largest entry), L-independence of the residual {TOL_LDEP}",
+        "known findings rg-derivative/ps/A2/entry=Hg and rg-exponent/ps/n=3/forward/class=light are emitted only for failures that match "
+        f"the model of the recorded defect (residual = -gamma_qg^(1),pol(N,nf=1) within {TOL_KNOWN_MODEL:g}; exponent n-1 +- 0.25 with the corrected "
+        "evaluation reaching n); they are counted (known_defect_points / known_defect_classes) and kept out of the measured maxima",
     ]
